@@ -7,7 +7,7 @@ after every prefix of the log, after every single injected failure and after cra
 opened with a fresh handle and every visible snapshot is read completely (the property itself).
 The extracted model's per-snapshot verdicts (closed / nothing lost) are compared with the real
 reads state by state."""
-import os, sys, json, collections
+import os, sys, json, collections, re
 import vlib
 from vlib import ROOT, sh2, log
 
@@ -20,35 +20,23 @@ LABEL = {
 }
 
 
-# textual order of the flush / save / remove call sites in the anchored functions: (file, fn, [markers in the
-# order the discipline wants]).  Recorded in the evidence; a reordering that matters shows up in the runs.
-ORDER_FACTS = [
-    ("crates/core/src/archiver.rs", "archive", ["indexer.write().unwrap().finalize()", "save_file(&self.snap)"]),
-    ("crates/core/src/commands/copy.rs", "copy", ["indexer.write().unwrap().finalize()", "save_list("]),
-    ("crates/core/src/commands/merge.rs", "merge_snapshots", ["merge_trees(", "save_file(&snap)"]),
-    ("crates/core/src/commands/merge.rs", "merge_trees", ["packer.finalize()", "indexer.write().unwrap().finalize()"]),
-    ("crates/core/src/commands/rewrite.rs", "rewrite_snapshots_and_trees", ["rewriter.finalize()", "process_snapshots("]),
-    ("crates/core/src/commands/rewrite.rs", "process_snapshots", ["save_snapshots(", "delete_snapshots("]),
-    ("crates/core/src/commands/repair/snapshots.rs", "repair_snapshots", ["modifier.finalize()", "be.save_file(", "be.delete_list("]),
-    ("crates/core/src/commands/repair/index.rs", "repair_index", ["be.save_file(&new_index)", "indexer.write().unwrap().finalize()", "be.remove(FileType::Index"]),
-    ("crates/core/src/blob/tree/modify.rs", "finalize", ["self.packer.finalize()", "self.indexer.write().unwrap().finalize()"]),
-    ("crates/core/src/commands/prune.rs", "prune_repository", ["data_repacker.finalize()", "indexer.write().unwrap().finalize()", "!early_delete_index", "data_packs_remove.iter()", "tree_packs_remove.iter()"]),
-]
+CMD_CODES = {"backup": 0, "copy": 1, "merge": 2, "rewrite_trees": 3, "rewrite_meta": 4, "repair_snapshots": 5,
+             "repair_index": 6, "forget": 7, "prune": 8, "config": 9, "key_add": 10, "key_delete": 11}
 
 
-def source_order_facts():
-    sys.path.insert(0, os.path.join(ROOT, "lib"))
-    import rustscan
-    out = []
-    for rel, fn, marks in ORDER_FACTS:
-        try:
-            body = rustscan.fn_body(rustscan.strip_comments(rustscan.read(vlib.REPO, rel)), fn)
-            pos = [body.find(m) for m in marks]
-            ok = all(p >= 0 for p in pos) and pos == sorted(pos)
-            out.append({"file": rel, "fn": fn, "markers": marks, "positions": pos, "in_intended_order": ok})
-        except Exception as e:
-            out.append({"file": rel, "fn": fn, "markers": marks, "error": str(e)[:200], "in_intended_order": False})
-    return out
+def order_name(cmd, variant):
+    if cmd == "rewrite":
+        return "rewrite_trees" if variant & 2 == 0 else "rewrite_meta"
+    if cmd == "key":
+        return "key_add" if variant == 0 else "key_delete"
+    return cmd
+
+
+def cmd_code(cmd, variant):
+    """(command code, early_delete_index, instant_delete) for the extracted phase order"""
+    early = 1 if (cmd == "prune" and variant & 2) else 0
+    instant = 1 if (cmd == "prune" and variant & 1) else 0
+    return (CMD_CODES[order_name(cmd, variant)], early, instant)
 
 
 def prune_variants(thorough):
@@ -116,9 +104,12 @@ def run_model(exe, lines):
 def parse_model(o):
     """-> (disc, bad, [ {sid: (closed, lossless)} per prefix ])"""
     toks = o.split()
-    d = dict(t.split("=", 1) for t in toks[:3])
+    nkv = 0
+    while nkv < len(toks) and "=" in toks[nkv] and not toks[nkv].startswith("P"):
+        nkv += 1
+    d = dict(t.split("=", 1) for t in toks[:nkv])
     states, cur = [], None
-    for t in toks[3:]:
+    for t in toks[nkv:]:
         if t.startswith("P") and t[1:].isdigit():
             cur = {}
             states.append(cur)
@@ -127,7 +118,7 @@ def parse_model(o):
                 if it:
                     sid, c, l = it.split(":")
                     cur[int(sid)] = (int(c), int(l))
-    return d["disc"] == "true", int(d["bad"]), states
+    return d["disc"] == "true", int(d["bad"]), states, d
 
 
 def real_map(st):
@@ -153,7 +144,25 @@ def agree(model_state, real_state):
 
 def run(ctx):
     rng, cov = ctx.rng, ctx.coverage
+    meta, err = vlib.regen_extracted("C03")
     r = vlib.proof_stage(ctx)
+    if err:
+        r["ok"] = False; r["failures"].append("fact extraction failed (phase order of a command no longer recognised): " + err)
+    # name the order obligation that no longer checks
+    named = []
+    for f in r["failures"]:
+        m = re.search(r"(ProofsCmd|Props)\.v:(\d+)", f)
+        if m:
+            src = open(os.path.join(ctx.pdir, "coq", m.group(1) + ".v")).read().splitlines()
+            for i in range(min(int(m.group(2)), len(src)) - 1, -1, -1):
+                mm = re.match(r"\s*(?:Lemma|Theorem|Example)\s+([\w']+)", src[i])
+                if mm:
+                    named.append("%s (%s.v:%s) no longer holds for the phase order regenerated from the source" % (mm.group(1), m.group(1), m.group(2)))
+                    break
+    r["failures"] += named
+    cov["source_facts"] = {"regenerated_orders": (meta or {}).get("orders"), "prune_early_guard": (meta or {}).get("prune_early_guard"),
+                           "soft_pin_misses": (meta or {}).get("soft_pin_misses"), "call_sites": len((meta or {}).get("call_sites", []))}
+    cov["trusted_base"] += ["props/C03/extract.py (reads the textual order and the option guards of the storage-effect call sites of each command function; unrecognised call sites fail loudly)"]
     cov["trusted_base"] += [
         "harness/src/bin/c03.rs: decoding of recorded payloads through the repository's own readers (IndexFile/SnapshotFile via get_file, tree walk via get_tree, pack headers via the C08 hook header_from_file) and the complete read of every visible snapshot (all trees, all file blobs, fresh handle, no cache)",
         "harness/src/e2e.rs RecBackend (fault injection / recording) and the in-memory backend of rustic_testing",
@@ -228,19 +237,33 @@ def run(ctx):
             if "decode_error" in run_:
                 broken.append(("the op log of a %s run could not be decoded: %s" % (kind, run_["decode_error"]), res["case"]))
                 continue
-            mlines.append(run_["s0"] + " " + run_["ops"])
+            mlines.append("%d %d %d " % cmd_code(cmd, res.get("variant", 0)) + run_["s0"] + " " + run_["ops"])
             mref.append((res, run_))
     mouts = run_model(model, mlines) if (model and mlines) else []
     disc_true = disc_false = agree_n = 0
+    conf = collections.defaultdict(lambda: collections.Counter())
+    nonconf = []
     for (res, run_), o in zip(mref, mouts):
         cmd, kind, case = res["cmd"], run_["kind"], res["case"]
         kinds = run_["kinds"]
         try:
-            disc, bad, mstates = parse_model(o)
+            disc, bad, mstates, md = parse_model(o)
         except Exception:
             broken.append(("model output not understood: " + o[:200], case)); continue
         disc_true += disc; disc_false += (not disc)
         hist[cmd]["ops"] += len(kinds)
+        oname = order_name(cmd, res.get("variant", 0))
+        cf = conf[oname]
+        cf["logs"] += 1
+        conforms, hyps, ook = md.get("conf") == "true", md.get("hyps") == "true", md.get("order_ok") == "true"
+        cf["conform"] += conforms; cf["end_state_hypotheses_hold"] += (conforms and hyps)
+        cf["order_safe"] += ook
+        if conforms and hyps and ook:
+            cf["theorem_applies"] += 1
+            if not disc:
+                broken.append(("command_order_in_discipline_%s applies to a log (order safe, log conforms, end-state hypotheses hold) that discipline_ok rejects: driver/extraction inconsistent" % oname, case))
+        if not conforms:
+            nonconf.append((oname, kind, kinds, md.get("frags"), case, disc))
         sig_of_bad = None
         if not disc and 0 <= bad < len(kinds):
             sig_of_bad = "%s:%s" % (cmd, LABEL.get(kinds[bad], "outside-discipline-at-" + kinds[bad]))
@@ -311,7 +334,9 @@ def run(ctx):
                 stats["faulted_logs_outside_discipline_but_final_safe"] += 1
     for c, rc1, err1 in hangs:
         viol.append(("%s: the harness process did not finish the case (rc=%s)" % (c.split()[0], rc1), {"case": c, "stderr": err1}, "%s:hang" % c.split()[0]))
-    cov["source_order_facts"] = source_order_facts()
+    for oname, kind, kinds, frags, case, disc in nonconf:
+        broken.append(("a real %s log of `%s` is NOT a concatenation of fragments in the phase order regenerated from the source: %s" % (kind, oname, " ".join(kinds)), case))
+    cov["phase_order_conformance"] = {k: dict(v) for k, v in conf.items()}
     cov.update({
         "evaluations": stats["states_evaluated"], "distinct_nontrivial": len(nontriv),
         "rule": "one evaluation = one storage state (after a prefix of a recorded fault-free log, after one injected failure, or after a crash re-run) opened with a fresh handle, every listed snapshot read completely and compared with its pre-command content; non-trivial = distinct (command, variant, op-kind sequence) of a fault-free log with at least two kinds of backend calls",
